@@ -154,5 +154,8 @@ def dist_pairs() -> list[tuple[str, str, str]]:
         out.append((DDP, HSDP, m))
         out.append((HSDP, HYB, m))
     out.append((HSDP, HYB, "_allocate_zeros_distributed_tensor"))
-    out.append((HSDP, HYB, "__init__"))
+    # the constructor tails of HSDP / HybridShard are no longer compared as text: a behaviour-preserving loop fission in one of
+    # them (selftest/equiv/r3-dist-5) was reported as a difference, and a measurement run without the differ (SV_NO_SIBLING=1)
+    # lost no seeded mutation — what the tails do (communication dtype table, mesh layout and dimension roles, uniform
+    # collective context, buffer sizes) is decided by direct rules for each class
     return out
